@@ -48,10 +48,11 @@ def placed_argv(case):
     return argv
 
 
-def gen_core_option(rng, core_spec):
+def gen_one_option(rng, core_spec, allow_bare_optional=True):
     """(tokens, flag spellings used, form) for one core option occurrence"""
-    args = [a for a in core_spec["args"] if (a["attr_name"] or a["names"][0]) != "help"]
+    args = list(core_spec["args"])
     a = rng.choice(args)
+    is_help = (a["attr_name"] or a["names"][0]) == "help"
     k = rng.randrange(len(a["names"]))
     fl = pc.to_flag_py(a["names"][k])
     if not pc.takes_value(a):
@@ -62,7 +63,15 @@ def gen_core_option(rng, core_spec):
             fy = pc.to_flag_py(y["names"][pc.short_index(y)])
             return ["-" + fx[1] + fy[1]], [fx, fy], "cluster"
         return [fl], [fl], "bare"
-    v = rng.choice(["5", "7", "12"]) if a["kind"] == "KInt" else rng.choice(["cv", "ns1", "a b", "x.yml"])
+    if a["optional"] and (is_help or (allow_bare_optional and rng.random() < 0.5)):
+        # --help / -h / --list / -l without a value
+        if not allow_bare_optional:
+            return gen_one_option(rng, core_spec, allow_bare_optional)
+        return [fl], [fl], "bareopt"
+    if a["kind"] == "KInt":
+        v = rng.choice(["5", "7", "12", "0"])
+    else:
+        v = rng.choice(["cv", "ns1", "a b", "x.yml", "", "my_app", "{0}"])
     forms = ["next", "eq"]
     sk = pc.short_index(a)
     if sk is not None:
@@ -73,9 +82,19 @@ def gen_core_option(rng, core_spec):
     if f == "eq":
         return [fl + "=" + v], [fl], f
     sfl = pc.to_flag_py(a["names"][sk])
-    if f == "glued":
+    if f == "glued" and v != "":
         return [sfl + v], [sfl], f
     return [sfl + "=" + v], [sfl], "eq"
+
+
+def gen_core_option(rng, core_spec):
+    """one core option, or (15%) two different ones moved together"""
+    if rng.random() < 0.15:
+        t1, f1, m1 = gen_one_option(rng, core_spec, allow_bare_optional=False)
+        t2, f2, m2 = gen_one_option(rng, core_spec, allow_bare_optional=False)
+        if not set(f1) & set(f2) and "glued" not in (m1, m2):
+            return t1 + t2, f1 + f2, "two"
+    return gen_one_option(rng, core_spec)
 
 
 def active_spec(specs, groups, j):
@@ -250,9 +269,9 @@ class C18(Prop):
         # attributable only when the clause that fails is the *placement* clause: base and front
         # parse, and the placed line differs from them in core values or task calls
         b, f, p = obs["base"], obs["front"], obs["placed"]
-        if "ok" not in b or "ok" not in f:
+        if "ok" not in b or ("ok" not in f and case["form"] != "bareopt"):
             return None
-        if "ok" in p:
+        if "ok" in p and case["form"] != "bareopt":
             same_core = p["ok"]["core"] == f["ok"]["core"]
             same_tasks = p["ok"]["tasks"] == b["ok"]["tasks"]
             if same_core and same_tasks:
